@@ -384,6 +384,62 @@ func cmdForms(args []string) {
 		})
 		tw.Emit(Rec{"ev": "funcv", "id": id, "name": name + " (Group method, callback appends to the enclosing group)", "plain": a, "funcv": b, "status": r.status})
 	}
+	// the same for the Group methods whose callback has another shape: CustomFunc (options first), Do (the callback gets
+	// the new statement), LitFunc / LitRuneFunc / LitByteFunc (the callback returns the value)
+	{
+		opts := jen.Options{Open: "<", Close: ">", Separator: ";"}
+		type hoistCase struct {
+			name        string
+			plain, with func() *jen.Statement
+		}
+		hc := []hoistCase{
+			{"Custom", func() *jen.Statement {
+				return jen.Block(jen.Id("hoisted"), jen.CustomFunc(opts, func(in *jen.Group) { in.Id("a") }))
+			}, func() *jen.Statement {
+				return jen.BlockFunc(func(g *jen.Group) {
+					g.CustomFunc(opts, func(in *jen.Group) { g.Id("hoisted"); in.Id("a") })
+				})
+			}},
+			{"Do", func() *jen.Statement {
+				return jen.Block(jen.Id("hoisted"), jen.Do(func(s *jen.Statement) { s.Id("a") }).Id("b"))
+			}, func() *jen.Statement {
+				return jen.BlockFunc(func(g *jen.Group) {
+					g.Do(func(s *jen.Statement) { g.Id("hoisted"); s.Id("a") }).Id("b")
+				})
+			}},
+			{"Lit", func() *jen.Statement {
+				return jen.Block(jen.Id("hoisted"), jen.LitFunc(func() interface{} { return 1 }))
+			}, func() *jen.Statement {
+				return jen.BlockFunc(func(g *jen.Group) {
+					g.LitFunc(func() interface{} { g.Id("hoisted"); return 1 })
+				})
+			}},
+			{"LitRune", func() *jen.Statement {
+				return jen.Block(jen.Id("hoisted"), jen.LitRuneFunc(func() rune { return 'x' }))
+			}, func() *jen.Statement {
+				return jen.BlockFunc(func(g *jen.Group) {
+					g.LitRuneFunc(func() rune { g.Id("hoisted"); return 'x' })
+				})
+			}},
+			{"LitByte", func() *jen.Statement {
+				return jen.Block(jen.Id("hoisted"), jen.LitByteFunc(func() byte { return 7 }))
+			}, func() *jen.Statement {
+				return jen.BlockFunc(func(g *jen.Group) {
+					g.LitByteFunc(func() byte { g.Id("hoisted"); return 7 })
+				})
+			}},
+		}
+		for _, c := range hc {
+			id++
+			tw.Traces++
+			var a, b string
+			r := safely(func() ([]byte, error) {
+				a, b = rawOf(c.plain()), rawOf(c.with())
+				return nil, nil
+			})
+			tw.Emit(Rec{"ev": "funcv", "id": id, "name": c.name + " (Group method, callback appends to the enclosing group)", "plain": a, "funcv": b, "status": r.status})
+		}
+	}
 	// DictFunc returns a Dict, not a statement: checked on its own
 	{
 		id++
